@@ -15,6 +15,9 @@ from . import rx
 from .facts import norm_ty, src
 
 
+STD_RECEIVERS = {"String", "str", "Vec", "Option", "Result", "char", "u8", "u16", "u32", "u64", "usize", "i32", "i64", "bool", "Rc", "Box", "Mode", "SFlag"}
+
+
 class NoEval(Exception):
     pass
 
@@ -457,6 +460,11 @@ class Probe:
                 return ""
             if len(fv[1]["segs"]) >= 2 and fv[1]["segs"][-1][:1].isupper():
                 return ("enum", "::".join(fv[1]["segs"][-2:]), list(args))
+            if len(fv[1]["segs"]) >= 2 and fv[1]["segs"][-2] in STD_RECEIVERS and args:
+                # a method of a standard type named as a function (`String::is_empty`): the method call on the first argument
+                env2 = dict_view({}, {"__a%d" % i: a for i, a in enumerate(args)})
+                pth = lambda n_: {"k": "path", "segs": [n_], "gen": [[]], "qself": None, "l": fv[1].get("l")}
+                return self.mcall({"k": "mcall", "l": fv[1].get("l"), "recv": pth("__a0"), "m": fv[1]["segs"][-1], "targs": [], "args": [pth("__a%d" % i) for i in range(1, len(args))]}, env2)
         if isinstance(fv, tuple) and fv and fv[0] == "enum" and not fv[2]:
             return ("enum", fv[1], list(args))  # a tuple-variant constructor used as a function
         raise NoEval("not callable")
